@@ -53,6 +53,8 @@ def obligations(tier):
            [REPO_FUNCS['rs']], module=H, func='p1_select', timeout=120),
         Ob('P2', 'S', '_write_file_part writes exactly [off,off+n) and never cuts the file below min(previous, off+n)',
            'previous length/offset unbounded, n<=6', [REPO_FUNCS['wp']], module=H, func='p2_write_part', timeout=120),
+        Ob('P2c', 'S', 'content after _write_file_part over a pre-existing 0xff file: the part (symbolic bytes, zeros included) is in place, earlier bytes untouched',
+           'symbolic part <= 3 bytes, offset <= 4, previous length <= 6', [REPO_FUNCS['wp']], module=H, func='p2_content', timeout=600),
         Ob('M1', 'S', 'restore_metadata passes the captured ns pair to utime; legacy branch iff ns keys absent', 'unbounded ints',
            [REPO_FUNCS['rm']], module=H, func='m1_metadata', timeout=60),
         Ob('E.sizes', 'E', 'real snapshot+restore is the identity: 2 file sizes over the boundary pool x content kind x chunking',
@@ -61,7 +63,7 @@ def obligations(tier):
            'restored exactly once', '10x3x3x2 = 180 vectors', [REPO_FUNCS['fp'], REPO_FUNCS['sn'], 'replicat.utils.fs:flatten_paths'],
            module=H, func='e_args', timeout=600, shards=2),
         Ob('E.pre', 'E', 'pre-existing target state (none/shorter/longer/different/elsewhere) x sizes: restored bytes exact, others untouched',
-           '6x4x3x2 = 144 vectors', [REPO_FUNCS['rs'], REPO_FUNCS['wp']], module=H, func='e_pre', timeout=600, shards=2),
+           '6x4x3x3 = 216 vectors (content kinds incl. all-zero files)', [REPO_FUNCS['rs'], REPO_FUNCS['wp']], module=H, func='e_pre', timeout=600, shards=2),
         Ob('E.cfg', 'E', 'cipher/hash/encryption x chunk bounds x concurrency {1,2,5} x size', '5x5x3x3 = 225 vectors',
            [REPO_FUNCS['sn'], REPO_FUNCS['rs']], module=H, func='e_cfg', timeout=600, shards=2),
         Ob('E.full', 'E', 'cross product of all pools, 1/97 residue class selected by a linear congruence', 'every 1931st point of the 5.9M-point product = 3045 vectors',
